@@ -265,7 +265,7 @@ def rule_F3(ctx: Ctx) -> None:
     for n in lp.body:  # local definitions like soln_len = maze.solution.shape[0]
         if isinstance(n, (ast.Assign, ast.AnnAssign)):
             t = n.targets[0] if isinstance(n, ast.Assign) else n.target
-            if isinstance(t, ast.Name) and n.value is not None:
+            if isinstance(t, ast.Name) and n.value is not None and not any(isinstance(x, ast.Name) and x.id == t.id for x in ast.walk(n.value)):
                 env[t.id] = N.affine(X.substitute_len(n.value), env)
     L = N.affine(X.expr_of(f"len({mz}.solution)"))
     sol_st = _store_stmts(lp, "maze_solutions")
@@ -324,7 +324,7 @@ def rule_F3(ctx: Ctx) -> None:
     for n in lp.body:
         if isinstance(n, (ast.Assign, ast.AnnAssign)):
             t = n.targets[0] if isinstance(n, ast.Assign) else n.target
-            if isinstance(t, ast.Name) and n.value is not None:
+            if isinstance(t, ast.Name) and n.value is not None and not any(isinstance(x, ast.Name) and x.id == t.id for x in ast.walk(n.value)):
                 env[t.id] = N.affine(X.substitute_len(n.value), env)
     L = N.affine(X.expr_of(f"len({mz}.solution)"))
     cat = _store_stmts(lp, "maze_solutions_concat")
@@ -338,10 +338,20 @@ def rule_F3(ctx: Ctx) -> None:
         if isinstance(sl, ast.Slice) and sl.lower is not None and sl.upper is not None and sl.step is None and isinstance(sl.lower, ast.Name):
             run = sl.lower.id
             width = N.aff_add(N.affine(X.substitute_len(sl.upper), env), N.affine(sl.lower), -1)
-            aug = [n for n in lp.body if isinstance(n, ast.AugAssign) and isinstance(n.target, ast.Name) and n.target.id == run]
-            init0 = [d for d in X.assignments_to(w.node, run) if not isinstance(d, ast.BinOp)]
-            ok_adv = len(aug) == 1 and isinstance(aug[0].op, ast.Add) and N.aff_eq(N.affine(X.substitute_len(aug[0].value), env), L) \
-                and lp.body.index(aug[0]) > [i for i, s in enumerate(lp.body) if s is cat[0]][0]
+            # the advance: `run += d` or `run = run + d`
+            aug = []
+            for n in lp.body:
+                if isinstance(n, ast.AugAssign) and isinstance(n.target, ast.Name) and n.target.id == run and isinstance(n.op, ast.Add):
+                    aug.append((n, N.affine(X.substitute_len(n.value), env)))
+                elif isinstance(n, ast.AugAssign) and isinstance(n.target, ast.Name) and n.target.id == run:
+                    aug.append((n, None))
+                elif isinstance(n, (ast.Assign, ast.AnnAssign)) and n.value is not None and X.U(n.targets[0] if isinstance(n, ast.Assign) else n.target) == run:
+                    a_ = N.affine(X.substitute_len(n.value), env)
+                    aug.append((n, N.aff_add(a_, N.affine(ast.Name(id=run, ctx=ast.Load())), -1)))
+            init0 = [d for d in X.assignments_to(w.node, run) if not any(isinstance(x, ast.Name) and x.id == run for x in ast.walk(d))]
+            ok_adv = len(aug) == 1 and aug[0][1] is not None and N.aff_eq(aug[0][1], L) \
+                and lp.body.index(aug[0][0]) > [i for i, s in enumerate(lp.body) if s is cat[0]][0]
+            aug = [a_[0] for a_ in aug]
             ok = N.aff_eq(width, L) and ok_adv and len(init0) == 1 and N.const_int(init0[0]) == 0 and X.U(cat[0].value) == f"{mz}.solution"
             slot.update({"slice_width": N.aff_str(width), "advance": X.U(aug[0]) if aug else None, "initial": X.U(init0[0]) if init0 else None})
         ctx.judge(w, ok, slot, exp, "solutions overlap or leave gaps in the concatenated array", node=cat[0])
